@@ -607,11 +607,9 @@ func (c *c18Case) exec(op c18Op) (string, string) {
 		}
 		return line, res
 	case "activate":
-		stop := int64(0)
-		if l, ok := c.prev.lics[op.creatorKey()]; ok {
-			stop = time.Unix(t, 0).UTC().AddDate(0, int(l.months), 0).Unix()
-		}
-		line := fmt.Sprintf("activate %d %d %s %d", t, op.signer, op.creatorKey(), stop)
+		// the end of the vesting period is NOT passed to the model: the model derives it from the stored
+		// licence (`addMonths`), and the account column of the state line compares it with the stored EndTime
+		line := fmt.Sprintf("activate %d %d %s", t, op.signer, op.creatorKey())
 		msg := &palomatypes.MsgRegisterLightNodeClient{Metadata: c.creatorMeta(op)}
 		c.at(t)
 		return line, c18Res(fa.DeliverTx(c.accts[op.signer], msg))
@@ -1611,6 +1609,49 @@ func (c *c18Case) directedUpper() {
 	}
 }
 
+// directed: the address governance configures as light-node fee granter holds a NOT YET ACTIVATED licence
+// (SetLightNodeClientFeegranter accepts any address, with or without an account, so the licence may be bought
+// before or after).  A sale then writes the fee grant licensee -> client, and the ante rule lets that client
+// activate the licensee's licence although the licensee itself never delegated anything (disjunct (3) of the
+// Lean theorem activate_only_by_licensee_or_delegate; the coins still go to the licensee).
+func (c *c18Case) directedFeegranterLicensee() {
+	fresh := c.withKind('n')
+	if len(fresh) < 2 {
+		return
+	}
+	x, y := fresh[0], fresh[1]
+	payer := 0
+	for a := 0; a < 3; a++ {
+		if c.spendable(a, 0).Cmp(c.spendable(payer, 0)) > 0 {
+			payer = a
+		}
+	}
+	if c.spendable(payer, 0).Cmp(big.NewInt(3_000_000)) < 0 {
+		return
+	}
+	before := c.rnd(2) == 0
+	if before {
+		c.do(c18Op{kind: "setfg", t: c.nextT(), client: x})
+	}
+	if c.do(c18Op{kind: "create", t: c.nextT(), signer: payer, creator: payer, client: x, amt: big.NewInt(int64(1000 + c.rnd(5000))), denom: 0, months: c.months()}) != "ok" {
+		return
+	}
+	if !before {
+		c.do(c18Op{kind: "setfg", t: c.nextT(), client: x})
+	}
+	c.do(c18Op{kind: "setfunders", t: c.nextT(), list: []int{payer}})
+	if c.prev.contract[0] < 0 {
+		c.do(c18Op{kind: "setcontracts", t: c.nextT(), pairs: [][2]int{{0, 1}}})
+	}
+	if c.do(c18Op{kind: "sale", t: c.nextT(), client: y, amt: big.NewInt(1), chain: 0, contract: c.authOr1(0)}) != "ok" {
+		return
+	}
+	if c.do(c18Op{kind: "activate", t: c.nextT(), signer: y, creator: x}) == "ok" {
+		c.e.r.Stat("activate.by_sale_client_of_feegranter_licensee")
+	}
+	c.do(c18Op{kind: "activate", t: c.nextT(), signer: x, creator: x})
+}
+
 func (e *c18Env) runCase() {
 	if e.fa == nil || e.onApp >= c18CasesPerApp {
 		e.newApp()
@@ -1646,6 +1687,9 @@ func (e *c18Env) runCase() {
 		steps = 4 + c.rnd(6)
 	} else if c.rnd(5) == 0 {
 		c.directedUnauthorised()
+		steps = 4 + c.rnd(6)
+	} else if c.rnd(8) == 0 {
+		c.directedFeegranterLicensee()
 		steps = 4 + c.rnd(6)
 	}
 	for i := 0; i < steps; i++ {
